@@ -155,7 +155,7 @@ func verifHelper_C06_three_lists() Iterator {
 	a := &arrayIndexIterator{i: -1, list: []Value{1, 5, 9}, values: vs}
 	b := &arrayIndexIterator{i: -1, list: []Value{2, 5, 7}, values: vs}
 	c := &arrayIndexIterator{i: -1, list: []Value{3, 6, 7}, values: vs}
-	return NewUnion([]Iterator{a, b, c}, vs)
+	return NewUnion([]Iterator{c, b, a}, vs) // not in heap order: start() has to build the heap
 }
 
 func verifLemma_C06_union_next() {
